@@ -100,7 +100,8 @@ PROPS = {
     },
     "C04": {
         "verus": [("tree_node", ["TreeNode.set_child", "lemma_sum"]), "azks_audit"],
-        "scope": "partial: get_append_only_proof refuses every range with end <= start or end beyond the latest epoch, and for an accepted range returns exactly one proof per epoch "
+        "scope": "partial: batch_insert_nodes leaves the tree untouched for an empty batch (the recursive insertion and the root write are entered only with a non-empty set - "
+                 "the auditor's start tree of an audit from epoch 0 depends on it) and advances the epoch by one; get_append_only_proof refuses every range with end <= start or end beyond the latest epoch, and for an accepted range returns exactly one proof per epoch "
                  "start..end (epochs list = start, start+1, .., end-1; |proofs| = |epochs|; proof i = the walk for (start+i, start+i+1) from the root as of the latest epoch); set_child maintains (last_epoch, min_descendant_epoch) as max/min summaries of the descendants (with frame: nothing else changes; refusal exactly for a child that "
                  "does not extend the parent) - the invariant the audit walk's pruning relies on. Correctness of the walk for all histories is not decided.",
         "trusted": ["NodeLabel::get_prefix_ordering as a function (its meaning is proved under C17)", "core::cmp::{max,min} assumed via cmp_spec",
